@@ -16,38 +16,47 @@ Fixpoint enc_p (p acc : positive) : positive :=
   end.
 Definition enc_n (n : N) (acc : positive) : positive :=
   match n with N0 => (acc~0~0)%positive | Npos p => enc_p p acc end.
-Definition enc_key (f : name) (idx : list N) : positive :=
-  fold_left (fun acc n => enc_n n acc) idx (enc_n f xH).
+(* a key = (field name, encoded index vector): the stores are two-level maps, so that instances of
+   different field names can never collide *)
+Definition skey := (positive * positive)%type.
+Definition skey_eqb (a b : skey) : bool := Pos.eqb (fst a) (fst b) && Pos.eqb (snd a) (snd b).
+Definition enc_key (f : name) (idx : list N) : skey :=
+  (N.succ_pos f, fold_left (fun acc n => enc_n n acc) idx xH).
 
 Module PM := PositiveMap.
 
 Record state := mkState {
-  ints   : PM.t Z;               (* scalar fields *)
-  blobs  : PM.t (list N);        (* strings and raw memory *)
-  sizes  : PM.t N;               (* element counts of container fields *)
+  ints   : PM.t (PM.t Z);        (* scalar fields: name -> index vector -> value *)
+  blobs  : PM.t (PM.t (list N)); (* strings and raw memory *)
+  sizes  : PM.t (PM.t N);        (* element counts of container fields *)
   locals : list (lvar * Z);
   inp    : list N;               (* unread input *)
   remaining : N;                 (* = length inp, kept to avoid recounting *)
   eof    : bool;                 (* the stream has failed: reads are no-ops *)
   out    : list N;               (* output, most recent byte first *)
   trace  : list N;               (* size of every primitive transfer, most recent first *)
-  reflog : list positive         (* keys of the block-reference / string-index fields that passed through Sync *)
+  reflog : list skey         (* keys of the block-reference / string-index fields that passed through Sync *)
 }.
 
 Definition empty_state (input : list N) : state :=
-  mkState (PM.empty Z) (PM.empty (list N)) (PM.empty N) [] input (N.of_nat (length input)) false [] [] [].
+  mkState (PM.empty _) (PM.empty _) (PM.empty _) [] input (N.of_nat (length input)) false [] [] [].
 
-Definition get_int (st : state) (k : positive) : Z := match PM.find k (ints st) with Some z => z | None => 0%Z end.
-Definition get_blob (st : state) (k : positive) : list N := match PM.find k (blobs st) with Some b => b | None => [] end.
-Definition get_size (st : state) (k : positive) : N := match PM.find k (sizes st) with Some n => n | None => 0 end.
-Definition set_int (st : state) (k : positive) (z : Z) : state :=
-  mkState (PM.add k z (ints st)) (blobs st) (sizes st) (locals st) (inp st) (remaining st) (eof st) (out st) (trace st) (reflog st).
-Definition set_blob (st : state) (k : positive) (b : list N) : state :=
-  mkState (ints st) (PM.add k b (blobs st)) (sizes st) (locals st) (inp st) (remaining st) (eof st) (out st) (trace st) (reflog st).
-Definition set_size (st : state) (k : positive) (n : N) : state :=
-  mkState (ints st) (blobs st) (PM.add k n (sizes st)) (locals st) (inp st) (remaining st) (eof st) (out st) (trace st) (reflog st).
+Definition find2 {A} (m : PM.t (PM.t A)) (k : skey) : option A :=
+  match PM.find (fst k) m with Some inner => PM.find (snd k) inner | None => None end.
+Definition add2 {A} (m : PM.t (PM.t A)) (k : skey) (a : A) : PM.t (PM.t A) :=
+  PM.add (fst k) (PM.add (snd k) a (match PM.find (fst k) m with Some inner => inner | None => PM.empty A end)) m.
 
-Definition log_ref (st : state) (k : positive) : state :=
+Definition get_int (st : state) (k : skey) : Z := match find2 (ints st) k with Some z => z | None => 0%Z end.
+Definition get_blob (st : state) (k : skey) : list N := match find2 (blobs st) k with Some b => b | None => [] end.
+Definition get_size (st : state) (k : skey) : N := match find2 (sizes st) k with Some n => n | None => 0 end.
+Definition set_int (st : state) (k : skey) (z : Z) : state :=
+  mkState (add2 (ints st) k z) (blobs st) (sizes st) (locals st) (inp st) (remaining st) (eof st) (out st) (trace st) (reflog st).
+Definition set_blob (st : state) (k : skey) (b : list N) : state :=
+  mkState (ints st) (add2 (blobs st) k b) (sizes st) (locals st) (inp st) (remaining st) (eof st) (out st) (trace st) (reflog st).
+Definition set_size (st : state) (k : skey) (n : N) : state :=
+  mkState (ints st) (blobs st) (add2 (sizes st) k n) (locals st) (inp st) (remaining st) (eof st) (out st) (trace st) (reflog st).
+
+Definition log_ref (st : state) (k : skey) : state :=
   mkState (ints st) (blobs st) (sizes st) (locals st) (inp st) (remaining st) (eof st) (out st) (trace st) (k :: reflog st).
 
 Fixpoint assoc_get (l : list (lvar * Z)) (x : lvar) : Z :=
@@ -143,12 +152,17 @@ Section Eval.
     | EOpaque => Fault
     end.
 
-  Definition key_of (st : state) (f : name) (idx : list iexpr) : positive := enc_key f (eval_idx st idx).
+  Definition key_of (st : state) (f : name) (idx : list iexpr) : skey := enc_key f (eval_idx st idx).
 
   (* sync of a scalar living at integer key k *)
-  Definition sync_int (st : state) (k : positive) (p : prim) (nbytes : N) : state :=
+  Definition sync_int (st : state) (k : skey) (p : prim) (nbytes : N) : state :=
     match m with
-    | Wr => emit st (firstn (N.to_nat nbytes) (encode p (get_int st k)))
+    | Wr =>
+      (* the member has the C type of p: its value is always in range. The model makes that explicit by
+         storing back what was written (the identity on in-range values). *)
+      let e := encode p (get_int st k) in
+      let st1 := if nbytes =? prim_width p then set_int st k (decode p e) else st in
+      emit st1 (firstn (N.to_nat nbytes) e)
     | Rd =>
       let '(got, st1) := read st nbytes in
       if (length got =? 0)%nat then st1
@@ -157,9 +171,12 @@ Section Eval.
         set_int st1 k (decode p (overlay (N.to_nat (prim_width p)) got old))
     end.
 
-  Definition sync_blob (st : state) (k : positive) (n : N) : state :=
+  Definition sync_blob (st : state) (k : skey) (n : N) : state :=
     match m with
-    | Wr => emit st (firstn (N.to_nat n) (get_blob st k ++ repeat 0 (N.to_nat n)))
+    | Wr =>
+      (* raw memory of exactly n bytes *)
+      let b := firstn (N.to_nat n) (get_blob st k ++ repeat 0 (N.to_nat n)) in
+      emit (set_blob st k b) b
     | Rd =>
       let '(got, st1) := read st n in
       set_blob st1 k (overlay (N.to_nat n) got (get_blob st k))
@@ -268,14 +285,12 @@ Section Eval.
               Ok (set_blob (mkState (ints st) (blobs st) (sizes st) (locals st) [] 0 true (out st) (n + 1 :: trace st) (reflog st)) k s0)
         end)
     | SRef f idx => (let k := key_of st f idx in Ok (sync_int (log_ref st k) k u32 4))
-    | SRefArr fsize fkeep frefs fidx idx w =>
+    | SRefArrHead fsize fkeep frefs fidx idx w =>
       (let i := eval_idx st idx in
         let st0 := match m with Wr => clean_refs st fsize fkeep frefs fidx i | Rd => st end in
         let ksz := enc_key fsize i in
         let st1 := sync_int st0 ksz u32 w in
-        let n := Z.to_N (get_int st1 ksz) in
-        let st2 := set_size st1 (enc_key frefs i) n in
-        iter_loop (fun s => let k := enc_key fidx (i ++ [Z.to_N (get_local s 0)]) in Ok (sync_int (log_ref s k) k u32 4)) 0 n st2)
+        Ok (set_size st1 (enc_key frefs i) (Z.to_N (get_int st1 ksz))))
     | SCleanRefs fsize fkeep frefs fidx idx =>
       (let i := eval_idx st idx in Ok (clean_refs st fsize fkeep frefs fidx i))
     | SVecSize f idx w x =>
